@@ -57,6 +57,7 @@ func TestCheck(t *testing.T) {
 	jobs := []*mcJob{
 		{name: "CMapImpl", opts: tlc.Opts{Dir: specDir, Module: "CMapImpl", Config: ev.Pick("MC_small.cfg", "MC_big.cfg"), Workers: 6, Timeout: ev.Pick(4*time.Minute, 30*time.Minute), HeapMB: 12000, Args: noTE}},
 		{name: "CMapImpl/defect-loadanddelete-split", wantDefect: true, opts: tlc.Opts{Dir: specDir, Module: "CMapImpl", Config: "MC_defect_lad.cfg", Workers: 2, Timeout: 3 * time.Minute, Args: noTE}},
+		{name: "CMapImpl/defect-range-split", wantDefect: true, opts: tlc.Opts{Dir: specDir, Module: "CMapImpl", Config: "MC_defect_range.cfg", Workers: 2, Timeout: 3 * time.Minute, Args: noTE}},
 		{name: "CMapImpl/defect-no-doublecheck", wantDefect: true, opts: tlc.Opts{Dir: specDir, Module: "CMapImpl", Config: "MC_defect_dc.cfg", Workers: 2, Timeout: 3 * time.Minute, Args: noTE}},
 		{name: "RingMC", opts: tlc.Opts{Dir: specDir, Module: "RingMC", Config: ev.Pick("RingMC_small.cfg", "RingMC_big.cfg"), Workers: 4, Timeout: ev.Pick(4*time.Minute, 20*time.Minute), HeapMB: 8000, Args: noTE, Keep: []string{"trans.ndjson"}}},
 		{name: "BufRingImpl", opts: tlc.Opts{Dir: specDir, Module: "BufRingImpl", Config: ev.Pick("BufMC_small.cfg", "BufMC_big.cfg"), Workers: 2, Timeout: ev.Pick(4*time.Minute, 20*time.Minute), Args: noTE}},
@@ -65,12 +66,18 @@ func TestCheck(t *testing.T) {
 	if ev.Thorough() { // MC_big.cfg: 3 processes on the map over 2 keys; MC_big_atomic.cfg: 3 processes on the atomic map
 		jobs = append(jobs, &mcJob{name: "CMapImpl/atomic", opts: tlc.Opts{Dir: specDir, Module: "CMapImpl", Config: "MC_big_atomic.cfg", Workers: 4, Timeout: 30 * time.Minute, HeapMB: 8000, Args: noTE}})
 	}
+	var ringJob *mcJob
+	for _, j := range jobs {
+		if j.name == "RingMC" {
+			ringJob = j
+		}
+	}
 	evals := int64(0)
 	traces := int64(0)
 
 	// ---- (1) linearizability of map / atomic map / slice
 	nRandom := ev.Pick(3000, 30000)
-	nDuel := ev.Pick(3600, 24300)
+	nDuel := ev.Pick(2700, 24300)
 	type hrec struct {
 		prog  program
 		lines [][]byte // reset line + one JSON line per record (kept instead of the maps: 10x smaller)
@@ -93,6 +100,10 @@ func TestCheck(t *testing.T) {
 	for i := 0; i < nDuel; i++ {
 		record(duelProgram(rng, i), rng.Intn(5) != 0)
 	}
+	nStaged := ev.Pick(360, 3600)
+	for i := 0; i < nStaged; i++ {
+		record(stagedProgram(rng, i), false)
+	}
 	var mcwg, side sync.WaitGroup
 	defer side.Wait()
 	defer mcwg.Wait()
@@ -114,13 +125,13 @@ func TestCheck(t *testing.T) {
 		defer side.Done()
 		// (2a) replay every transition of the ring model's state graph
 		<-ringMCDone
-		nGraph = replayRingGraph(e, jobs[3].res.Kept["trans.ndjson"])
+		nGraph = replayRingGraph(e, ringJob.res.Kept["trans.ndjson"])
 		// (2b) random walks and all short mutation sequences, validated by TLC
 		nRingTraces = ringTraces(e, rand.New(rand.NewSource(ev.Seed()+1000003)))
 		// (3) buffered ring
 		nBuf = bufTraces(e, rand.New(rand.NewSource(ev.Seed()+2000003)))
 	}()
-	fmt.Printf("histories: %d recorded (%d random, %d duels), %d with overlapping calls %v\n", len(hists), nRandom, nDuel, overlaps, byProg)
+	fmt.Printf("histories: %d recorded (%d random, %d duels, %d staged Range/ForEach), %d with overlapping calls %v\n", len(hists), nRandom, nDuel, nStaged, overlaps, byProg)
 	const chunk = 12000
 	linOpts := func(w int) tlc.Opts {
 		return tlc.Opts{Dir: specDir, Module: "TraceLin", Config: "TraceLin.cfg", Workers: w, Timeout: ev.Pick(6*time.Minute, 40*time.Minute), HeapMB: 12000}
@@ -184,7 +195,7 @@ func TestCheck(t *testing.T) {
 	e.Set("states", states)
 	e.Set("transitions", transitions)
 	e.Set("checker_cmd", strings.Join(cmds, " ; "))
-	e.Set("defect_models_rejected", []string{"CMapImpl lad-split (LinOK)", "CMapImpl no-doublecheck (SameHandle)", "BufRingImpl unlink-one-early (Refines)"})
+	e.Set("defect_models_rejected", []string{"CMapImpl lad-split (LinOK)", "CMapImpl range-split (LinOK)", "CMapImpl no-doublecheck (SameHandle)", "BufRingImpl unlink-one-early (Refines)"})
 
 	side.Wait()
 	evals += nGraph + nRingTraces + nBuf
@@ -192,7 +203,7 @@ func TestCheck(t *testing.T) {
 
 	e.Set("evaluations", evals)
 	e.Set("traces_validated_against_impl", traces)
-	e.Set("rule", "histories: random programs of 2-4 goroutines x 1-5 operations x 1-3 keys on cmap.Map / cmap.Atomic+AtomicValue / slice.Slice (or all three) with seeded Gosched yields, plus 9 contention duels (N x LoadAndDelete after one Store; Store/LoadAndDelete/Store; concurrent GetOrCreate+Add; GetOrCreate vs Delete with orphaned handles; Adds on a shared handle; Append vs Slice; Range/Keys vs Clear; Delete vs LoadAndDelete; ForEach vs GetOrCreate); call record under one mutex before the call, ret record after the return; accepted iff TLC finds a linearization; non-trivial = at least two calls in flight at once, distinct by recorded history. rings: every (state, operation, argument) of Ring.tla over N cells (all partitions into rings of sizes 1..N, nil ring, Move/Unlink arguments -N-1..N+2) replayed on ring.Ring and container/ring, once with New(k) rings and once with every one-element ring an untouched zero-value Ring; random walks of 60-100 operations over New(0..5) + New(0..3) + a zero Ring; all Link/Unlink sequences up to depth d. buffered: all AppendBack/RemoveFront strings of length L (never removing from an empty queue) for initial and buffer sizes -1..5 with Len/Front/Range/stopped Range after every step, plus random strings of length 60-200.")
+	e.Set("rule", "histories: random programs of 2-4 goroutines x 1-5 operations x 1-3 keys on cmap.Map / cmap.Atomic+AtomicValue / slice.Slice (or all three) with seeded Gosched yields, plus 9 contention duels (N x LoadAndDelete after one Store; Store/LoadAndDelete/Store; concurrent GetOrCreate+Add; GetOrCreate vs Delete with orphaned handles; Adds on a shared handle; Append vs Slice; Range/Keys vs Clear; Delete vs LoadAndDelete; ForEach vs GetOrCreate), plus staged programs in which the callback of Range / ForEach, after its first entry, lets a writer go that rewrites / deletes / re-creates every key in key order or reverse key order and gives it 300 us (never waits for it); call record under one mutex before the call, ret record after the return; accepted iff TLC finds a linearization; non-trivial = at least two calls in flight at once, distinct by recorded history. rings: every (state, operation, argument) of Ring.tla over N cells (all partitions into rings of sizes 1..N, nil ring, Move/Unlink arguments -N-1..N+2) replayed on ring.Ring and container/ring, once with New(k) rings and once with every one-element ring an untouched zero-value Ring; random walks of 60-100 operations over New(0..5) + New(0..3) + a zero Ring; all Link/Unlink sequences up to depth d. buffered: all AppendBack/RemoveFront strings of length L (never removing from an empty queue) for initial and buffer sizes -1..5 with Len/Front/Range/stopped Range after every step, plus random strings of length 60-200.")
 
 	selfTest(e)
 }
@@ -208,9 +219,25 @@ func classifyRejected(e *ev.Evidence, o tlc.Opts, rejected []int, get func(int) 
 		return len(a) < len(b)
 	})
 	total := len(rejected)
-	if len(rejected) > 60 {
-		rejected = rejected[:60]
+	// classify the 30 shortest rejected histories of every kind (set of objects used), so that a flood of
+	// rejections on one object does not hide another object's
+	perKind := map[string]int{}
+	var keep []int
+	for _, hi := range rejected {
+		_, evs := get(hi)
+		objs := map[string]bool{}
+		for _, x := range evs {
+			if x["ev"] == "call" {
+				objs[fmt.Sprint(x["obj"])] = true
+			}
+		}
+		kind := fmt.Sprint(objs)
+		if perKind[kind] < 30 {
+			perKind[kind]++
+			keep = append(keep, hi)
+		}
 	}
+	rejected = keep
 	b := &tv.Batch{}
 	type ref struct {
 		hist int
